@@ -39,6 +39,7 @@ type X2Config struct {
 	Prefix       []XEvent // the search starts from the state this history leads to (Depth counts the events after it)
 	Store        bool     // run with a store (and hence the persist loop) although Save is not in the alphabet
 	AdvAlways    bool     // clock steps are offered in every state
+	Svar         bool     // schedule requests that carry a job variable (a different value in every request) are in the alphabet too
 	NoDedup      bool     // every history up to the depth is executed: no state is merged, so state the key cannot see (a flag, a cache, a counter a change may add) cannot hide a history
 	logDir       string
 }
@@ -98,6 +99,11 @@ func (c *X2Config) events(w *World) []XEvent {
 	if !d.ShuttingDown {
 		for _, p := range c.pipes() {
 			evs = append(evs, XEvent{Kind: "S", P: p})
+		}
+		if c.Svar {
+			for _, p := range c.pipes() {
+				evs = append(evs, XEvent{Kind: "S", P: p, Var: w.Accepted + 1})
+			}
 		}
 	}
 	// runs of jobs the runner still knows first, then orphans (runs of a job a save has purged while it executes): the
